@@ -26,11 +26,13 @@ TEXT = {'design_ref': 'DESIGN.md section 4, C05',
  'text': 'Proved in Lean for every tree, every pattern set, both filter modes and every root depth: the literal traversal (hash-lookup fast path, comma lists, '
          'child iteration, known-entry short cut, multi-pattern re-check, alreadyDid set) visits exactly the nodes whose full path matches when tested one by '
          'one, each once (`traversal_eq_bruteforce`); with the delivery callback exactly one visit is recorded in each session that owns a matching node and '
-         'none elsewhere (`route_sessions_exact`, `route_once_per_session*`) when every pattern has at least 2 clauses (a pattern that stops at a host node selects no session).  Tie: FindMatchingNodes and '
-         "client-to-client routing on a real server agree with the model (visit order included) and with the harness's brute-force recipient/visit sets; the "
-         'delivered sender field always names the true sender.',
+         'none elsewhere (`route_sessions_exact`, `route_once_per_session*`) when every pattern has at least 2 clauses (a pattern that stops at a host node '
+         'selects no session).  Tie: FindMatchingNodes and client-to-client routing on a real server agree with the model (visit order included) and with the '
+         "harness's brute-force recipient/visit sets; the delivered sender field always names the true sender. FIFO per pair is a theorem as well: nothing "
+         'queued for a client is ever removed or reordered, and a later Message of the same sender sits behind everything the receiver had when it was sent '
+         '(`send_appends_only_its_text`, `fifo_per_pair`, `fifo_first_occurrences`).',
  'note': 'Hypotheses of the traversal theorem: clause counts equal group keys, sibling names distinct, and the two pattern-layer laws (a "unique" pattern '
          'matches only its unescaped text; a unique-value list matches exactly its elements) — provided by C15 for documented patterns; false for a dangling '
-         'final backslash and for lists with an empty element.  Finding F27 (a key set holding a session-level pattern together with a deeper one delivered twice; the former 3-clause hypothesis) is repaired in the code '
-         "(fa53600) and the theorems were re-proved for the repaired descent rule; the old rule is kept as a `decide` counter-example.  FIFO per sender/receiver pair and the fallback/default-route rules are covered by "
-         'correspondence, not by a theorem.'}
+         'final backslash and for lists with an empty element.  Finding F27 (a key set holding a session-level pattern together with a deeper one delivered '
+         'twice; the former 3-clause hypothesis) is repaired in the code (fa53600) and the theorems were re-proved for the repaired descent rule; the old rule '
+         'is kept as a `decide` counter-example.  The fallback to broadcast without keys/route is covered by correspondence, not by a theorem.'}
